@@ -1,6 +1,7 @@
 import TypstyleModel.Proofs.Strip
 import TypstyleModel.Props.C11
 import TypstyleModel.Proofs.Import
+import TypstyleModel.Proofs.CommentStable
 /-! C03 — convergence (partial).  The end-to-end statement `format (format x) = format x` needs
 the parser (`parse ∘ render`), which is not modelled (DESIGN.md §4 C03).  Proved here: the parts of
 the pipeline whose fixed-point behaviour is parser-free. -/
@@ -23,5 +24,47 @@ theorem C03_import_key_ignores_spacing (a b : ANode)
 theorem C03_import_sort_is_idempotent (nodes : List ANode) :
     stableSort importSortKey (stableSort importSortKey nodes) = stableSort importSortKey nodes :=
   stableSort_idem importSortKey nodes
+
+/-! ### T3.4: block comments converge
+
+A multi-line block comment is the one place where the printer *reads layout from the source*
+(`get_follow_leading`: the common indentation of the continuation lines) and writes layout that
+depends on where the comment lands (`align`: the column `col` of the comment).  The text of the
+printed comment is `realigned col leading lines` — the first line as it is, every continuation line
+with `leading` blanks cut off and `col` blanks put in front (nothing at all for a line that is cut
+away entirely).  The theorems say that the second pass reads the printed comment exactly as the first
+pass read the source: the same style, and the same document — for every comment text, every column,
+every configuration. -/
+
+/-- The aligned style: the indentation read from the printed comment is the comment's column, and
+cutting it off again gives the same document. -/
+theorem C03_aligned_comment_is_stable (e : Env) (col : Nat) (ls : List String) (leading : Nat)
+    (h : followLeadingLines ls = some leading) (hlen : ∀ l ∈ ls, l.length < usizeMax) (hcol : col < usizeMax) :
+    followLeadingLines (realigned col leading ls) = some (if leading = usizeMax then usizeMax else col) ∧
+    alignLines e (if leading = usizeMax then usizeMax else col) (realigned col leading ls) = alignLines e leading ls :=
+  alignLines_realigned e col ls leading h hlen hcol
+
+/-- `alignLines`/`followLeadingLines` are what `align_multiline`/`get_follow_leading` compute. -/
+theorem C03_aligned_comment_model (e : Env) (text : String) (leading : Nat) (h : followLeading text = some leading) :
+    followLeadingLines (rlines text) = some leading ∧ alignMultiline e text = pure (alignLines e leading (rlines text)) :=
+  ⟨(followLeading_eq text) ▸ h, alignMultiline_eq e text leading h⟩
+
+/-- The bullet style (`align_multiline_simple`, continuation lines hang one column right of the
+comment's column): the printed comment is converted to the same document. -/
+theorem C03_bullet_comment_is_stable (e : Env) (col : Nat) (ls : List String) :
+    (realignedSimple col ls).foldl (alignSimpleStep e) (Pretty.Doc.nil, 0) = ls.foldl (alignSimpleStep e) (Pretty.Doc.nil, 0) :=
+  alignSimple_realigned e col ls
+
+/-- The choice between the two styles is read the same way from the printed comment. -/
+theorem C03_comment_style_is_stable (col : Nat) (ls : List String) :
+    bulletStyle (realignedSimple col ls) = bulletStyle ls ∧
+    (∀ leading, followLeadingLines ls = some leading → (∀ l ∈ ls, l.length < usizeMax) →
+      bulletStyle (realigned col leading ls) = bulletStyle ls) :=
+  ⟨bulletStyle_realignedSimple col ls, fun leading h hlen => bulletStyle_realigned col ls leading h hlen⟩
+
+/-- The premises are satisfiable, and the second pass of a concrete comment at column 5 indeed reads
+indentation 5. -/
+example : followLeadingLines ["/* a", "    b", "", "  c */"] = some 2 ∧
+    followLeadingLines (realigned 5 2 ["/* a", "    b", "", "  c */"]) = some 5 := by decide
 
 end Typstyle
